@@ -17,7 +17,9 @@
 (***************************************************************************)
 EXTENDS JournalGen
 
-S == 2
+(* the family "bal-threedec" works at scale 3: quantities with exactly three decimals (0.125, -0.125, 1234.567) are where
+   number reading is most fragile (one mark followed by three digits) *)
+S == IF Family = "bal-threedec" THEN 3 ELSE 2
 
 Counted(t) == SelectSeq(RealPosts(t), LAMBDA p : p.kind \in {"real", "bracket"})
 Inferred(t) == Len(SelectSeq(Counted(t), LAMBDA p : Len(p.amt) = 0))
@@ -75,11 +77,11 @@ NegOf(a, delta) ==   \* the exact negation of amount a plus delta units of its l
     [neg |-> v < 0, m |-> Abs(v), sc |-> a.sc, n |-> IF a.sc = 3 THEN "exp" ELSE "point", comm |-> a.comm,
      side |-> IF a.comm = 0 THEN "R" ELSE "R", sp |-> a.comm # 0, sgn |-> "before", plus |-> FALSE]
 
-BalAmounts(u) == { a \in AllAmounts(0) : a.sc <= S /\ (a.comm # 0 => Commodities[a.comm].k # "lower") }
+BalAmounts(u) == { a \in AllAmounts(0) : a.sc <= S /\ (Family = "bal-threedec" => a.sc = 3) /\ (a.comm # 0 => Commodities[a.comm].k # "lower") }
 
 NotationKeys(u) == (0..Len(Commodities)) \X {0, 1}
 FamNotationPart(key) ==
-    { Case("bal-notation", "", << [BaseTx EXCEPT !.posts = << [BaseTx.posts[1] EXCEPT !.amt = <<a>>],
+    { Case(Family, "", << [BaseTx EXCEPT !.posts = << [BaseTx.posts[1] EXCEPT !.amt = <<a>>],
                                                               [BaseTx.posts[2] EXCEPT !.amt = <<NegOf(a, key[2])>>] >>] >>) :
           a \in { x \in BalAmounts(0) : x.comm = key[1] } }
 
@@ -139,10 +141,10 @@ CloseTx(o) ==
          [] OTHER -> t0
 
 (* ---- one-step behaviour ---------------------------------------------------------------------- *)
-Keys(u) == CASE Family = "bal-notation" -> NotationKeys(0)
+Keys(u) == CASE Family \in {"bal-notation", "bal-threedec"} -> NotationKeys(0)
           [] Family = "bal-small"    -> SmallKeys(0)
           [] OTHER                   -> {0}
-Part(key) == CASE Family = "bal-notation" -> FamNotationPart(key)
+Part(key) == CASE Family \in {"bal-notation", "bal-threedec"} -> FamNotationPart(key)
                [] Family = "bal-small"    -> { k \in FamSmallPart(key) : InQuantifier(k.es[1]) }
                [] OTHER                   -> {}
 
